@@ -53,6 +53,7 @@ def run_machine_batch(mname, tier, seed, runs, workers, wall, digest_sample):
         "violations": [],
         "digests": {},
         "maxdiff": 0.0,
+        "maxdiff_by": {},
         "harness_errors": [],
         "samples": [],
         "skipped": 0,
@@ -73,6 +74,8 @@ def run_machine_batch(mname, tier, seed, runs, workers, wall, digest_sample):
             total["violations"].extend(agg["violations"])
             total["digests"].update(agg["digests"])
             total["maxdiff"] = max(total["maxdiff"], agg["maxdiff"])
+            for rk, rv in agg["maxdiff_by"].items():
+                total["maxdiff_by"][rk] = max(total["maxdiff_by"].get(rk, 0.0), rv)
             total["harness_errors"].extend(agg["harness_errors"])
             if len(total["samples"]) < 3:
                 total["samples"].extend(agg["samples"])
@@ -275,6 +278,7 @@ def cmd_check(args):
                 "probe_zero": sorted(p for p in getattr(machine, "EXPECTED_PROBES", {}).get(tier, []) if stats.get("probe:" + p, 0) == 0),
                 "oracle_comparisons": stats.get("oracle_comparisons", 0),
                 "max_observed_difference": tot["maxdiff"],
+                "max_difference_within_tolerance_by_regime": dict(sorted(tot["maxdiff_by"].items())),
                 "determinism_resample": det,
                 "violations_raw_known": dict(raw_known),
                 "violations_raw_unknown": raw_unknown,
